@@ -26,6 +26,23 @@ func Root() string {
 	return "/verif"
 }
 
+// Out is where run outputs (partial evidence, replay artefacts) go: Root()
+// for /repo, a private directory when ./vr builds against another checkout.
+func Out() string {
+	if r := os.Getenv("VERIF_OUT"); r != "" {
+		return r
+	}
+	return filepath.Join(Root(), ".build")
+}
+
+// Repo is the neo-go checkout the check was built against.
+func Repo() string {
+	if r := os.Getenv("VERIF_REPO"); r != "" {
+		return r
+	}
+	return "/repo"
+}
+
 // Run is one execution of one check.
 type Run struct {
 	ID    string
@@ -181,7 +198,7 @@ func (r *Run) Violation(key string, detail any) bool {
 			return true
 		}
 	}
-	dir := filepath.Join(Root(), "replays", r.ID)
+	dir := filepath.Join(ReplayRoot(), r.ID)
 	_ = os.MkdirAll(dir, 0o755)
 	name := sanitize(key)
 	if len(name) > 80 {
@@ -290,7 +307,7 @@ func (r *Run) Finish(cov map[string]any, assumptions []string) {
 		if part == "" {
 			part = "main"
 		}
-		dir := filepath.Join(Root(), ".build", "parts")
+		dir := filepath.Join(Out(), "parts")
 		_ = os.MkdirAll(dir, 0o755)
 		if err := os.WriteFile(filepath.Join(dir, r.ID+"."+part+".json"), b, 0o644); err != nil {
 			fmt.Println("evidence write error:", err)
@@ -302,6 +319,14 @@ func (r *Run) Finish(cov map[string]any, assumptions []string) {
 		os.Exit(1)
 	}
 	os.Exit(0)
+}
+
+// ReplayRoot is the directory of replay artefacts.
+func ReplayRoot() string {
+	if r := os.Getenv("VERIF_OUT"); r != "" {
+		return filepath.Join(r, "replays")
+	}
+	return filepath.Join(Root(), "replays")
 }
 
 // ReadReplay loads the detail part of a replay artefact into v.
